@@ -32,6 +32,8 @@ type tsyncScript struct {
 	Flags      uint32   `json:"flags"`
 	LoaderMain bool     `json:"loader_main"`
 	NNP        bool     `json:"nnp"`
+	Preload    bool     `json:"preload"` // the loader first loads the same policy without thread-sync
+	Divergent  bool     `json:"divergent"` // the first phase thread installs a private filter (policy B) before the load
 }
 
 type tsyncThread struct {
@@ -119,6 +121,9 @@ func childTSync(args []string) {
 			runtime.LockOSThread()
 			ths[i].Tid = gettid()
 			ths[i].ProbeBefore = probeGetppid()
+			if sc.Divergent && i == 0 {
+				seccomp.LoadFilter(seccomp.Filter{NoNewPrivs: true, Flag: 0, Policy: *kindPolicy("B")})
+			}
 			started.Done()
 			switch ph {
 			case "spin":
@@ -186,6 +191,13 @@ func childTSync(args []string) {
 	}
 	load := func() {
 		rep.LoaderTid = gettid()
+		if sc.Preload {
+			if err := seccomp.LoadFilter(seccomp.Filter{NoNewPrivs: sc.NNP, Flag: 0, Policy: *kindPolicy("A")}); err != nil {
+				s := "preload: " + err.Error()
+				rep.Err = &s
+			}
+			rep.Seam = nil
+		}
 		err := seccomp.LoadFilter(seccomp.Filter{NoNewPrivs: sc.NNP, Flag: seccomp.FilterFlag(sc.Flags), Policy: *kindPolicy("A")})
 		atomic.StoreInt32(&loaded, 1)
 		if err != nil {
